@@ -12,7 +12,7 @@
    Machine arithmetic is explicit: size_t arithmetic wraps modulo 2^64, conversions to the index type
    are modular ([cast]), arithmetic of operator() happens in the promoted type ([arith t]: int for
    index types narrower than int) -- unsigned wraps, signed is checked (None = signed overflow = UB). *)
-From Tetl Require Import Lib.Base.
+From Tetl Require Import Lib.Base C19.Slices.
 Local Open Scope Z_scope.
 
 Notation "'do' x <- a ; b" := (obind a (fun x => b)) (at level 200, x name, a at level 100, b at level 200).
@@ -106,6 +106,14 @@ Definition ext_convert (t : ity) (p : pattern) (t' : ity) (e' : extents) : exten
     {| pat := p; dyn := fill_dyn p (fun i => cast t (extent t' e' i)) |}
   else ext_default p.
 
+(* operator==(extents<I1, E1...>, extents<I2, E2...>): false for different ranks, otherwise the loop
+   `if (cmp_not_equal(lhs.extent(i), rhs.extent(i))) return false` -- cmp_not_equal compares the mathematical
+   values whatever the two index types are.  layout_left/right::mapping::operator== compares the extents. *)
+Definition ext_eqb (t1 : ity) (e1 : extents) (t2 : ity) (e2 : extents) : bool :=
+  if (rank e1 =? rank e2)%nat
+  then forallb (fun i => extent t1 e1 i =? extent t2 e2 i) (seq 0 (rank e1))
+  else false.
+
 (* fwd_prod_of_extents(i) / rev_prod_of_extents(i), in size_t *)
 Definition prod_step (t : ity) (e : extents) (r : Z) (k : nat) : Z := szw (r * szw (extent t e k)).
 Definition fwd_prod (t : ity) (e : extents) (i : nat) : Z :=
@@ -183,6 +191,10 @@ Definition tr_stride (l : layout) (t : ity) (ne : extents) (r : nat) : res Z :=
 (* mdspan::operator()(indices...): static_cast<size_t>(_map(index_cast(indices)...)) -> p[idx] *)
 Definition mds_offset (l : layout) (t : ity) (e : extents) (idx : list Z) : option Z :=
   do o <- lay_map l t e (map (cast t) idx); Some (szw o).
+(* the element the reference designates: default_accessor::access(p, i) = p[i], on a buffer of known
+   length ([nth_error]: None = the access would be outside the buffer) *)
+Definition mds_get {A} (buf : list A) (l : layout) (t : ity) (e : extents) (idx : list Z) : option A :=
+  do o <- mds_offset l t e idx; nth_error buf (Z.to_nat o).
 (* size(): static_cast<size_type>(fwd_prod_of_extents(rank())) *)
 Definition mds_size (t : ity) (e : extents) : Z := to_size_type t (fwd_prod t e (rank e)).
 Definition mds_empty (t : ity) (e : extents) : bool := mds_size t e =? 0.
@@ -200,6 +212,30 @@ Fixpoint sub_keep {A} (sl : list (option Z)) (l : list A) : list A :=
    them and finally calls extents<IndexT, NewStatic...>(newExts...) with N == rank of the result *)
 Definition sub_extents (t : ity) (e : extents) (sl : list (option Z)) : extents :=
   ext_from_pack t (sub_keep sl (pat e)) (sub_keep sl (extents_list t e)).
+
+(* the same builder with pair-like slices (first, last) of run-time values (fix 857745d):
+   submdspan_static_extent gives dynamic_extent for such a slice and the builder appends
+   static_cast<IndexT>(static_cast<IndexT>(get<1>(slice)) - static_cast<IndexT>(get<0>(slice)))
+   (the subtraction in the promoted type: unsigned wraps, signed overflow = UB = None) *)
+Fixpoint subp_pat (sl : list slice) (p : pattern) : pattern :=
+  match sl, p with
+  | SlFull :: sr, x :: r => x :: subp_pat sr r
+  | SlIndex _ :: sr, _ :: r => subp_pat sr r
+  | SlPair _ _ :: sr, _ :: r => None :: subp_pat sr r
+  | _, _ => []
+  end.
+Fixpoint subp_vals (t : ity) (sl : list slice) (xs : list Z) : option (list Z) :=
+  match sl, xs with
+  | SlFull :: sr, x :: r => do v <- subp_vals t sr r; Some (x :: v)
+  | SlIndex _ :: sr, _ :: r => subp_vals t sr r
+  | SlPair a b :: sr, _ :: r =>
+      do d <- aop t (cast t b - cast t a);
+      do v <- subp_vals t sr r;
+      Some (cast t d :: v)
+  | _, _ => Some []
+  end.
+Definition sub_extents_p (t : ity) (e : extents) (sl : list slice) : option extents :=
+  do v <- subp_vals t sl (extents_list t e); Some (ext_from_pack t (subp_pat sl (pat e)) v).
 
 (** * span<T, Extent> as a window (offset, size) into the underlying sequence *)
 Record spanv := { s_off : Z; s_size : Z; s_ext : option Z }.   (* s_ext: Some n = static extent *)
